@@ -29,6 +29,9 @@ type Stream struct {
 	reset   bool
 	hdr     p2p.Headers
 	MaxRead int // if > 0, Read returns at most this many bytes per call (fragmented delivery)
+	// OnFirstRead, if set, is called once at the first Read with everything written so
+	// far (the service's request) and returns the peer's bytes.
+	OnFirstRead func(written []byte) []byte
 }
 
 // NewStream returns a stream that will deliver in and then io.EOF.
@@ -39,6 +42,12 @@ func (s *Stream) Read(p []byte) (int, error) {
 	defer s.mu.Unlock()
 	if s.reset {
 		return 0, errors.New("stream reset")
+	}
+	if s.OnFirstRead != nil {
+		f := s.OnFirstRead
+		s.OnFirstRead = nil
+		s.in = f(append([]byte(nil), s.out...))
+		s.off = 0
 	}
 	if s.off >= len(s.in) {
 		return 0, io.EOF
@@ -117,6 +126,9 @@ type Streamer struct {
 	Reply func(peer boson.Address, protocol, stream string, nth int) ([]byte, error)
 	calls []*Call
 	count map[string]int
+	// Lazy, if set, takes precedence over Reply: the peer's bytes are computed at the
+	// first Read from what the service has written (its request) by then.
+	Lazy func(peer boson.Address, protocol, stream string, written []byte) []byte
 	// PingErr is returned by Ping.
 	PingErr error
 }
@@ -142,7 +154,16 @@ func (s *Streamer) open(peer boson.Address, protocol, stream string) (p2p.Stream
 	n := s.count[k]
 	s.count[k]++
 	reply := s.Reply
+	lazy := s.Lazy
 	s.mu.Unlock()
+	if lazy != nil {
+		st := NewStream(nil)
+		st.OnFirstRead = func(w []byte) []byte { return lazy(peer, protocol, stream, w) }
+		s.mu.Lock()
+		s.calls = append(s.calls, &Call{Peer: peer, Protocol: protocol, Stream: stream, S: st})
+		s.mu.Unlock()
+		return st, nil
+	}
 	if reply == nil {
 		return nil, errors.New("pbench: no stream")
 	}
